@@ -342,6 +342,82 @@ def fsim_g1 (K : Consts α) (p : Ang α) : M α
 def ccp (K : Consts α) (t : Ang α) : M α := diag fun i => if i = 7 then t.e K else 1
 def ccp_g0 (K : Consts α) (t : Ang α) : M α := fun i j => if i = 7 ∧ j = 7 then t.de K else 0
 
+/-! ## Parameterised gates with a variable number of parameters -/
+
+/-- `DiagonalGate(n)`: `diag(1, e^{iθ₁}, …, e^{iθ_{2ⁿ-1}})` -/
+def diagGate (K : Consts α) (ps : List (Ang α)) : M α :=
+  diag fun i => if i = 0 then 1 else ((ps.getD (i - 1) Ang.zero).e K)
+/-- gradient for parameter `k`: the single entry `(k+1, k+1)` -/
+def diagGate_g (K : Consts α) (ps : List (Ang α)) (k : Nat) : M α :=
+  fun i j => if i = k + 1 ∧ j = k + 1 then (ps.getD k Ang.zero).de K else 0
+
+/-- `ArbitraryCPhaseGate(radixes)`: identity with `e^{iθ}` in the last entry (`D` = dimension) -/
+def acphase (K : Consts α) (D : Nat) (t : Ang α) : M α :=
+  diag fun i => if i + 1 = D then t.e K else 1
+def acphase_g (K : Consts α) (D : Nat) (t : Ang α) : M α :=
+  fun i j => if i + 1 = D ∧ j + 1 = D then t.de K else 0
+
+/-- `get_indices`/multiplexed rotations: with `sh = 2^(n - target - 1)`, row `r` belongs to the
+select value `sel sh r` and is the `bitOf sh r`-th row of its 2×2 block
+(`x1 = left·2·sh + right`, `x2 = x1 + sh` read backwards) -/
+def sel (sh r : Nat) : Nat := (r / (2 * sh)) * sh + r % sh
+def bitOf (sh r : Nat) : Nat := (r / sh) % 2
+def pow2 : Nat → Nat
+  | 0 => 1
+  | n + 1 => 2 * pow2 n
+
+/-- `MPRYGate(n, target)`: an `RY(θ_i)` block for every value `i` of the select qubits -/
+def mpry (n target : Nat) (ps : List (Ang α)) : M α := fun r c =>
+  let sh := pow2 (n - target - 1)
+  if sel sh r = sel sh c then ry (ps.getD (sel sh r) Ang.zero) (bitOf sh r) (bitOf sh c) else 0
+def mpry_g (K : Consts α) (n target : Nat) (ps : List (Ang α)) (k : Nat) : M α := fun r c =>
+  let sh := pow2 (n - target - 1)
+  if sel sh r = k ∧ sel sh c = k then ry_g0 K (ps.getD k Ang.zero) (bitOf sh r) (bitOf sh c) else 0
+
+/-- `MPRZGate(n, target)` -/
+def mprz (K : Consts α) (n target : Nat) (ps : List (Ang α)) : M α := fun r c =>
+  let sh := pow2 (n - target - 1)
+  if sel sh r = sel sh c then rz K (ps.getD (sel sh r) Ang.zero) (bitOf sh r) (bitOf sh c) else 0
+def mprz_g (K : Consts α) (n target : Nat) (ps : List (Ang α)) (k : Nat) : M α := fun r c =>
+  let sh := pow2 (n - target - 1)
+  if sel sh r = k ∧ sel sh c = k then rz_g0 K (ps.getD k Ang.zero) (bitOf sh r) (bitOf sh c) else 0
+
+/-- `RSU3Gate(index)`, `index ≤ 6` (index 7 has the irrational rate `1/√3`: validated only) -/
+def rsu3 (K : Consts α) (index : Nat) (t : Ang α) : M α :=
+  match index with
+  | 0 => fun i j => match i, j with
+    | 0, 0 => t.c | 1, 1 => t.c | 0, 1 => -(K.i * t.s) | 1, 0 => -(K.i * t.s) | 2, 2 => 1 | _, _ => 0
+  | 1 => fun i j => match i, j with
+    | 0, 0 => t.c | 1, 1 => t.c | 0, 1 => -t.s | 1, 0 => t.s | 2, 2 => 1 | _, _ => 0
+  | 2 => fun i j => match i, j with
+    | 0, 0 => t.en K | 1, 1 => t.e K | 2, 2 => 1 | _, _ => 0
+  | 3 => fun i j => match i, j with
+    | 0, 0 => t.c | 2, 2 => t.c | 0, 2 => -(K.i * t.s) | 2, 0 => -(K.i * t.s) | 1, 1 => 1 | _, _ => 0
+  | 4 => fun i j => match i, j with
+    | 0, 0 => t.c | 2, 2 => t.c | 0, 2 => -t.s | 2, 0 => t.s | 1, 1 => 1 | _, _ => 0
+  | 5 => fun i j => match i, j with
+    | 1, 1 => t.c | 2, 2 => t.c | 1, 2 => -(K.i * t.s) | 2, 1 => -(K.i * t.s) | 0, 0 => 1 | _, _ => 0
+  | 6 => fun i j => match i, j with
+    | 1, 1 => t.c | 2, 2 => t.c | 1, 2 => -t.s | 2, 1 => t.s | 0, 0 => 1 | _, _ => 0
+  | _ => eye
+def rsu3_g (K : Consts α) (index : Nat) (t : Ang α) : M α :=
+  match index with
+  | 0 => fun i j => match i, j with
+    | 0, 0 => -t.s | 1, 1 => -t.s | 0, 1 => -(K.i * t.c) | 1, 0 => -(K.i * t.c) | _, _ => 0
+  | 1 => fun i j => match i, j with
+    | 0, 0 => -t.s | 1, 1 => -t.s | 0, 1 => -t.c | 1, 0 => t.c | _, _ => 0
+  | 2 => fun i j => match i, j with
+    | 0, 0 => t.den K | 1, 1 => t.de K | _, _ => 0
+  | 3 => fun i j => match i, j with
+    | 0, 0 => -t.s | 2, 2 => -t.s | 0, 2 => -(K.i * t.c) | 2, 0 => -(K.i * t.c) | _, _ => 0
+  | 4 => fun i j => match i, j with
+    | 0, 0 => -t.s | 2, 2 => -t.s | 0, 2 => -t.c | 2, 0 => t.c | _, _ => 0
+  | 5 => fun i j => match i, j with
+    | 1, 1 => -t.s | 2, 2 => -t.s | 1, 2 => -(K.i * t.c) | 2, 1 => -(K.i * t.c) | _, _ => 0
+  | 6 => fun i j => match i, j with
+    | 1, 1 => -t.s | 2, 2 => -t.s | 1, 2 => -t.c | 2, 1 => t.c | _, _ => 0
+  | _ => zeroM
+
 /-! ## Constant gates — dense -/
 
 /-- `HGate()` (qubit) -/
@@ -696,6 +772,16 @@ def family (K : Consts α) (name : String) (args : List Nat) : Option (GVal α) 
       (fun ps => [fsim_g0 K (p ps 0), fsim_g1 K (p ps 1)]))
   | "CCPGate", [] => some (mkFam [2, 2, 2] 1 (fun ps => ccp K (p ps 0))
       (fun ps => [ccp_g0 K (p ps 0)]))
+  | "DiagonalGate", [n] => some (mkFam (ones n) (pow2 n - 1) (fun ps => diagGate K ps)
+      (fun ps => (List.range (pow2 n - 1)).map (diagGate_g K ps)))
+  | "ArbitraryCPhaseGate", rs => some (mkFam rs 1 (fun ps => acphase K (prodL rs) (p ps 0))
+      (fun ps => [acphase_g K (prodL rs) (p ps 0)]))
+  | "MPRYGate", [n, t] => some (mkFam (ones n) (pow2 (n - 1)) (fun ps => mpry n t ps)
+      (fun ps => (List.range (pow2 (n - 1))).map (mpry_g K n t ps)))
+  | "MPRZGate", [n, t] => some (mkFam (ones n) (pow2 (n - 1)) (fun ps => mprz K n t ps)
+      (fun ps => (List.range (pow2 (n - 1))).map (mprz_g K n t ps)))
+  | "RSU3Gate", [idx] => if idx ≤ 6 then some (mkFam [3] 1 (fun ps => rsu3 K idx (p ps 0))
+      (fun ps => [rsu3_g K idx (p ps 0)])) else none
   -- constants
   | "IdentityGate", rs => some (.const rs eye)
   | "XGate", [] => some (.const [2] xGate)
